@@ -9,7 +9,8 @@ import (
 // directory, relative and absolute), outside->inside, a chain, a loop, a link
 // in a middle component, a root that is itself a link, the prefix sibling.
 const fuzzSandbox = `{"cwd":"root/sub","root":"$BASE/rootlink","nodes":[
- {"kind":"dir","path":"root"},{"kind":"dir","path":"outside"},{"kind":"dir","path":"cwd"},{"kind":"dir","path":"root-evil"},
+ {"kind":"dir","path":"root"},{"kind":"dir","path":"outside"},{"kind":"dir","path":"cwd"},{"kind":"dir","path":"root-evil"},{"kind":"dir","path":"Root"},{"kind":"dir","path":"ROOT"},
+ {"kind":"file","id":"F10","path":"Root/a.lisp"},{"kind":"file","id":"F11","path":"ROOT/a.lisp"},{"kind":"link","path":"root/case","target":"../Root"},
  {"kind":"dir","path":"root/sub"},{"kind":"dir","path":"root/sub/deep"},{"kind":"dir","path":"outside/sub"},
  {"kind":"file","id":"F1","path":"root/a.lisp","loads":["sub/a.lisp","out.lisp"]},
  {"kind":"file","id":"F2","path":"root/b.lisp"},
@@ -35,7 +36,7 @@ var fuzzCtxs = []string{"", "$BASE/root/a.lisp", "$BASE/root/sub/a.lisp", "$BASE
 
 func FuzzLocation(f *testing.F) {
 	for _, s := range []string{"a.lisp", "../a.lisp", "../../root-evil/a.lisp", "out.lisp", "outdir/sub/a.lisp", "up/outside/a.lisp",
-		"$BASE/root-evil/a.lisp", "$BASE/rootlink/../outside/a.lisp", "chain", "loop", "sub//./a.lisp/", "outdir/../b.lisp",
+		"$BASE/root-evil/a.lisp", "../Root/a.lisp", "$BASE/ROOT/a.lisp", "case/a.lisp", "$BASE/rootlink/../outside/a.lisp", "chain", "loop", "sub//./a.lisp/", "outdir/../b.lisp",
 		"/etc/hostname", "..\\..\\outside\\a.lisp", "a.lisp\x00", "%2e%2e/outside/a.lisp", "....//outside/a.lisp", "~/a.lisp"} {
 		for i := range fuzzCtxs {
 			f.Add(uint8(i), s)
